@@ -259,6 +259,9 @@ def known_shape(name: str, expr: str, interp: str, comp: str) -> str | None:
         return "for-loop-sequence-variable-rebound-in-body"
     if name == "lp_reassign_str" and interp in ("ok ['a', 'b', 'c']", "ok ['a']") and comp == "ok ['a', 'y', 'z']":
         return "for-loop-sequence-variable-rebound-in-body"
+    if name == "lp_reassign_dict" and interp == "ok ['a', 'b']" and \
+            comp == "exc RuntimeError: dictionary changed size during iteration":
+        return "for-loop-sequence-variable-rebound-in-body"
     if name == "ex_order" and interp != comp and interp.replace("True", "False") == comp:
         return "raise-from-clause-ignored"
     if name == "ex_cause" and interp != comp and comp == "ok ('NoneType', False, 'KeyError')":
